@@ -168,6 +168,9 @@ class MemPrims:
             if r is not None:
                 return r
         short = name.rsplit("::", 1)[1] if "::" in name else name
+        if short in ("push", "insert", "extend", "append", "extend_from_slice") and name.startswith("std::vec::Vec") and \
+                "MemoryArea" in " ".join(t["f"].get("gargs", [])):
+            path.events.append(("area_push", short))
         seq = path.tags.get("area_seq")
         if seq is not None:
             r = self.list_mode(I, path, frame, t, name, short, args, seq)
@@ -296,12 +299,23 @@ class MemPrims:
             path.tags["order"] = seq[k]
             path.events.append(("iter_next", "some", k))
             val = area_ref("IterMut" in g)
+            if "IterMut" in g:
+                path.events.append(("area_handout", k, True))
             if "Enumerate" in g:
-                val = ("agg", "tuple", None, (A.W(("enum_idx",), 64), val))
+                val = ("agg", "tuple", None, (A.INT(k, 64), val))
             return [(A.SOME(val), path)]
         if short in ("find", "position", "rposition") and isiter and len(args) == 2:
             return self.find_list(I, path, frame, t, args, seq, short)
         if short in ("index", "index_mut") and "ops::Index" in name:
+            if len(args) == 2 and "Range" not in " ".join(t["f"].get("gargs", [])[1:]):
+                ix = I._deref_all(path, args[1])
+                while ix[0] in ("w", "cast") and isinstance(ix[1], tuple):
+                    ix = ix[1]
+                if A.is_int(ix) and ix[1] < len(seq):
+                    # memory[k] with the index a scan of this list produced: that element, in its own ordering
+                    path.tags["order"] = seq[ix[1]]
+                    path.events.append(("area_handout", ix[1], short == "index_mut"))
+                    return [(area_ref(short == "index_mut"), path)]
             return None
         if short not in self.LIST_PLAIN:
             path.tags["list_unsupported"] = short
@@ -351,7 +365,9 @@ class MemPrims:
                     continue
                 o.path.tags[("ipos", inst)] = pos + 1
                 o.path.events.append(("find", "some"))
-                outs.append((A.SOME(area_ref(mut) if want == "find" else A.W(("enum_idx",), 64)), o.path))
+                if want == "find" and mut:
+                    o.path.events.append(("area_handout", k, True))
+                outs.append((A.SOME(area_ref(mut) if want == "find" else A.INT(k, 64)), o.path))
         return outs
 
     def find(self, I, path, frame, t, args):
